@@ -196,7 +196,11 @@ def snapshot(store: Any, queries: list[dict[str, Any]]) -> list[Any]:
     async def go() -> list[Any]:
         out = []
         for q in queries:
-            hs = await store.query(HandlerQuery(**q))
+            try:
+                hs = await store.query(HandlerQuery(**q))
+            except Exception as e:  # noqa: BLE001  (a query that raises is a wrong answer, not a harness error)
+                out.append([("raised", type(e).__name__, str(e)[:60])])
+                continue
             out.append(sorted((h.handler_id, h.status, h.run_id, h.workflow_name, h.idle_since is not None) for h in hs))
         return out
 
